@@ -405,6 +405,10 @@ func one(scn int, line string, w *rec.Writer) error {
 		m := abs.ToAPIContainer("x", "p", abs.Container{Mnt: abs.SMap{s.K: s.V}}).Mounts[0]
 		o := m.ToOCI(nil)
 		e["tooci"] = abs.FromOCISpec(&rspec.Spec{Mounts: []rspec.Mount{o}}, nil).Mnt
+		// the same conversion when the caller also asks which propagation the mount wants (as the generator does)
+		var prop string
+		oq := m.ToOCI(&prop)
+		e["toociq"] = abs.FromOCISpec(&rspec.Spec{Mounts: []rspec.Mount{oq}}, nil).Mnt
 		b := api.FromOCIMounts([]rspec.Mount{o})
 		e["back"] = abs.FromAPIContainer(&api.Container{Mounts: b}).Mnt
 		// the conversions must not share the options slice
